@@ -9,7 +9,8 @@ level claimed is therefore `exploration`:
   T  value(t | targets = S) == value(t | S') for S, S' containing t: singletons vs. the default
      list vs. all nodes, sets that force / do not force an automatic <x>_<group> sum
   X  additional unused data columns change nothing -- including the trap columns named like the
-     base of an existing group-level function (x for a function x_<group>)
+     base of an existing group-level function (x for a function x_<group>) or like another time
+     unit of an existing function (x_y for a function x_m)
   O  debug in {False, True}, check_minimal_specification in {ignore, warn} change no value
   S  shape: one row per input row, in input order (also for non-default / shuffled index labels),
      columns == requested targets (ids first)
@@ -48,6 +49,7 @@ def bounded(rep, tier, seed):
 
     rng = random.Random(seed)
     n_eval = 0
+    n_traps = 0
     distinct = set()
     bad = []
     dates = ["2023-07-01", "2017-01-01"] if tier == "quick" else ["2015-01-01", "2017-01-01", "2019-07-01", "2021-01-01", "2023-07-01", "2024-01-01"]
@@ -100,7 +102,30 @@ def bounded(rep, tier, seed):
             b = remove_group_suffix(n_)
             if b != n_ and b not in fno and b not in pop.columns:
                 traps.append(b)
+        # ... and names that are another time unit of an existing function (x_y for a function x_m):
+        # the conversion derived from such a column must not replace the function
+        import re
+
+        from _gettsim.config import SUPPORTED_GROUPINGS as _G
+
+        tu = re.compile(r"(?P<base>.*_)(?P<unit>[ymwd])(?P<agg>(" + "|".join(f"_{g}" for g in _G) + "))?")
+        dag_d = e.dag(targets=defaults, data_cols=list(pop.columns))
+        for n_ in nodes:
+            m_ = tu.fullmatch(n_)
+            # only hard-coded rules: for a derived node the sibling column legitimately replaces the derivation;
+            # only siblings nobody reads in the graph of the requested targets: they are unused
+            if not m_ or n_ not in dag_d or venv.classify_node(n_, fno[n_]) not in ("scalar_rule", "array_rule"):
+                continue
+            sibs = [f"{m_['base']}{u}{m_['agg'] or ''}" for u in "ymwd" if u != m_["unit"]]
+            # if any other unit of the quantity is read in the graph, a supplied sibling feeds it (C05 / C13): used
+            if any(x in dag_d or x in pop.columns for x in sibs):
+                continue
+            for sib in sibs:
+                if sib not in fno or venv.classify_node(sib, fno[sib]) == "time_conversion":
+                    traps.append(sib)
+                    break
         traps = sorted(set(traps))
+        n_traps += len(traps)
         extra = pop.copy()
         extra["verif_unused_column"] = numpy.arange(len(pop)) * 1.5
         for b in traps:
@@ -157,7 +182,7 @@ def bounded(rep, tier, seed):
                     bad.append(f"{d}: index labels {labels[:3]}.. {kw}: rows no longer in input order / values changed in {diff[:4]}")
                 if kw.get("debug") and "p_id" in r.columns and list(r["p_id"]) != list(pop["p_id"]):
                     bad.append(f"{d}: index labels {labels[:3]}.. debug=True: input columns are not in input order")
-    rep.bounded["target_independence"] = {"evaluations": n_eval, "distinct_nontrivial": len(distinct), "rule": "per date: singleton targets (sampled / all nodes), random target subsets, default vs all nodes; extra unused columns incl. base names of group-level functions; debug / check_minimal_specification; three index labellings x debug; bit-for-bit comparison; distinct = (date, kind, detail)", "failures": bad[:8]}
+    rep.bounded["target_independence"] = {"evaluations": n_eval, "distinct_nontrivial": len(distinct), "trap_columns": n_traps, "rule": "per date: singleton targets (sampled / all nodes), random target subsets, default vs all nodes; extra unused columns incl. base names of group-level functions and other time units of hard-coded rules none of whose units is otherwise read; debug / check_minimal_specification; three index labellings x debug; bit-for-bit comparison; distinct = (date, kind, detail)", "failures": bad[:8]}
     return bad, n_eval, len(distinct)
 
 
